@@ -805,3 +805,29 @@ func TestReplay(t *testing.T) {
 	defer worker.Recycle()
 	vk.Replay(t)
 }
+
+// FuzzSource is the coverage-guided stage of the thorough tier (go test -fuzz): arbitrary bytes as source text under
+// an arbitrary option vector, executed in the crash-isolated child with the same oracle as the generated cases.
+func FuzzSource(f *testing.F) {
+	loadCorpus()
+	for i, c := range corpus {
+		if i%7 == 0 && len(c) < 1500 {
+			f.Add([]byte(c), uint8(i))
+		}
+	}
+	for _, b := range bombs {
+		f.Add([]byte(strings.Repeat(b, 40)), uint8(8))
+	}
+	f.Add([]byte("l = []\nl.append(l)\nprint(l, {1: l}, (l,))\n"), uint8(0))
+	f.Add([]byte("def f(x):\n    return f(x)\nf(1)\n"), uint8(8))
+	f.Fuzz(func(t *testing.T, src []byte, opts uint8) {
+		if len(src) > 65536 {
+			return
+		}
+		req := Request{Kind: "src", Src: src, Opts: int(opts) % 64, Budget: 1000}
+		if err := subCase.Check(req); err != nil {
+			vk.Violation("case", req, err)
+			t.Fatalf("%v", err)
+		}
+	})
+}
